@@ -301,7 +301,7 @@ func stripQ(s string) string {
 }
 
 func gen(t *rapid.T) Case {
-	cfg := fsgen.Cfg{Absolute: rapid.Bool().Draw(t, "absolute"), AvoidUnwalked: rapid.IntRange(0, 3).Draw(t, "avoid") > 0, NoExtension: rapid.IntRange(0, 3).Draw(t, "noext") == 0, NullEntries: rapid.IntRange(0, 2).Draw(t, "nullentries") == 0, CallbackPathRefs: rapid.Bool().Draw(t, "cbpathrefs")}
+	cfg := fsgen.Cfg{Absolute: rapid.Bool().Draw(t, "absolute"), AvoidUnwalked: rapid.IntRange(0, 3).Draw(t, "avoid") > 0, NoExtension: rapid.IntRange(0, 3).Draw(t, "noext") == 0, NullEntries: rapid.IntRange(0, 2).Draw(t, "nullentries") == 0, CallbackPathRefs: rapid.Bool().Draw(t, "cbpathrefs"), PathChains: true}
 	if os.Getenv("C02_DEBUG") != "" {
 		cfg.AvoidUnwalked = true
 	}
@@ -337,14 +337,34 @@ func gen(t *rapid.T) Case {
 		sites := reachableRefs(lay)
 		if len(sites) > 0 {
 			s := sites[rapid.IntRange(0, len(sites)-1).Draw(t, "site")]
-			kind := rapid.SampledFrom([]string{"missing-name", "missing-file", "missing-pointer", "wrong-kind"}).Draw(t, "breakkind")
+			kind := rapid.SampledFrom([]string{"missing-name", "missing-file", "missing-pointer", "wrong-kind", "missing-name-shadowed"}).Draw(t, "breakkind")
 			nr := breakRef(s.Ref, kind)
 			if kind == "wrong-kind" {
 				nr, kind = wrongKindRef(t, lay, s)
 			}
+			var shadow any
+			if kind == "missing-name-shadowed" {
+				nr, shadow = shadowedMissing(lay, s)
+			}
 			if nr != "" {
 				var v any
 				_ = json.Unmarshal([]byte(lay.Files[s.File]), &v)
+				if shadow != nil {
+					// the name the other document lacks exists in the referring document
+					m := reCompRef.FindStringSubmatch(nr)
+					d := v.(map[string]any)
+					comps, _ := d["components"].(map[string]any)
+					if comps == nil {
+						comps = map[string]any{}
+						d["components"] = comps
+					}
+					sec, _ := comps[m[2]].(map[string]any)
+					if sec == nil {
+						sec = map[string]any{}
+						comps[m[2]] = sec
+					}
+					sec[m[3]] = shadow
+				}
 				v = setAt(v, append(s.Ptr, "$ref"), nr)
 				b, _ := json.Marshal(v)
 				lay.Files[s.File] = string(b)
@@ -392,6 +412,32 @@ func wrongKindRef(t *rapid.T, lay *fsgen.Layout, s fsgen.RefSite) (string, strin
 	}
 	c := cands[rapid.IntRange(0, len(cands)-1).Draw(t, "wrongkind")]
 	return m[1] + "#/components/" + c.sec + "/" + c.name, "wrong-kind:" + m[2] + "->" + c.sec
+}
+
+// shadowedMissing redirects an external component reference to a name its target document lacks but
+// the referring document has (a copy of the original target is planted there under that name).
+func shadowedMissing(lay *fsgen.Layout, s fsgen.RefSite) (string, any) {
+	m := reCompRef.FindStringSubmatch(s.Ref)
+	if m == nil || m[1] == "" {
+		return "", nil
+	}
+	var from, to map[string]any
+	if json.Unmarshal([]byte(lay.Files[s.File]), &from) != nil || from["openapi"] == nil {
+		return "", nil
+	}
+	if fsgen.ResolvePath(s.File, m[1]) == s.File {
+		return "", nil // the document named by its own file name
+	}
+	if json.Unmarshal([]byte(lay.Files[fsgen.ResolvePath(s.File, m[1])]), &to) != nil {
+		return "", nil
+	}
+	comps, _ := to["components"].(map[string]any)
+	sec, _ := comps[m[2]].(map[string]any)
+	obj, _ := sec[m[3]].(map[string]any)
+	if obj == nil || obj["$ref"] != nil || strings.Contains(jv.Canon(obj), "$ref") {
+		return "", nil // the planted copy must not bring references of its own
+	}
+	return m[1] + "#/components/" + m[2] + "/OnlyInReferrer", jv.Clone(obj)
 }
 
 func breakRef(ref, kind string) string {
